@@ -150,7 +150,7 @@ def run_child(workdir, cfg, at, mode, errno_, log=None, scenario=None, at2=None)
     proc = subprocess.run(
         [par.PY, '-m', 'checks.c06_warcfault', '--child', workdir, '1' if cfg['compress'] else '0',
          str(cfg['earlier']), str(cfg['size']), scenario or cfg.get('scenario', 'plain')],
-        cwd=common.VERIF, env=env, stdout=subprocess.PIPE, stderr=subprocess.STDOUT, timeout=120)
+        cwd=workdir, env=env, stdout=subprocess.PIPE, stderr=subprocess.STDOUT, timeout=120)
     return proc
 
 
